@@ -5,6 +5,7 @@ mod report;
 mod util;
 
 mod bringup;
+mod c01;
 mod c03;
 mod c04;
 mod c05;
@@ -75,6 +76,7 @@ fn main() {
     let args = Args { id: id.clone(), tier, replay, rest };
     // A panic inside the *machinery* (not inside a guarded call into the subject) is a machinery failure.
     let r = std::panic::catch_unwind(|| match id.as_str() {
+        "C01" => c01::main(&args),
         "C03" => c03::main(&args),
         "C04" => c04::main(&args),
         "C05" => c05::main(&args),
